@@ -323,7 +323,7 @@ def render_stil(case, S):
     L.append('ScanStructures {')
     for name, lst in chains.items():
         cells = ' '.join('!' if x == '!' else f'"m.{x}.SI"' for x in lst[1:-1])
-        L.append(f'  ScanChain "{name}" {{ ScanLength {len([x for x in lst[1:-1] if x != "!"])}; ScanIn "{lst[0]}"; ScanOut "{lst[-1]}"; ScanInversion 0; ScanCells {cells}; ScanMasterClock "ck"; }}')
+        L.append(f'  ScanChain "{name}" {{ ScanLength {len([x for x in lst[1:-1] if x != "!"])}; ScanIn "{lst[0]}"; ScanOut "{lst[-1]}"; ScanInversion {sum(1 for x in lst[1:-1] if x == "!") % 2}; ScanCells {cells}; ScanMasterClock "ck"; }}')
     L.append('}')
     L.append('Timing { WaveformTable "_default_WFT_" { Period \'100ns\'; } }')
     L.append('PatternBurst "_burst_" { PatList { "_pattern_" { } } }')
